@@ -49,3 +49,13 @@ def run(ctx):
     n_quick, n_thorough = 1000, 8000
     common.standard(ctx, "GopModel.Props.C39", "c39", n_quick, n_thorough, RULE,
                     extract=("inflight",), driver="drv_inflight", post=post)
+
+
+def replay(ctx, obj):
+    """Re-run one recorded failure: a scenario (`scen seed idx`, repeated until it reproduces: schedules are
+    nondeterministic) or a recorded step line (re-checked by the Lean driver)."""
+    from .. import replay as rp
+    ctx.driver_exe = "drv_inflight"
+    ctx.extract("inflight")
+    ctx.lake("drv_inflight")
+    return rp.generic(ctx, obj)
